@@ -4,7 +4,7 @@ from ..build import AnalysisBroken
 from ..callgraph import connects
 from ..effects import field_uses, top_function
 
-UNITS = ['server/QXmppIncomingClient.cpp', 'server/QXmppServer.cpp', 'server/QXmppPasswordChecker.cpp']
+UNITS = ['server/QXmppIncomingClient.cpp', 'server/QXmppServer.cpp', 'server/QXmppPasswordChecker.cpp', 'base/Stream.cpp']
 IC = 'QXmppIncomingClient'
 JID = 'QXmppIncomingClientPrivate::jid'
 JIDX = 'this.d.jid'
@@ -26,6 +26,7 @@ def run(prog, run):
     r3(prog, run, hs)
     r4(prog, run)
     r5(prog, run)
+    r6(prog, run)
 
 
 def _find_roles(prog, hs):
@@ -493,3 +494,71 @@ def r5(prog, run):
                 run.violation(rid, '%s#%s' % (qn, e['name']), pc.loc(), '%s %s' % (qn.split('::')[-1], problems[0]))
             else:
                 run.ok(rid, pc.loc(), '%s: %s is reported, no credential handed out' % (qn.split('::')[-1], e['name']))
+
+
+# --------------------------------------------------------------------------- R6: a refused connection is really over
+def r6(prog, run):
+    rid = run.rule('C16.R6', 'the server ends a refused exchange with XmppSocket::disconnectFromHost() and keeps its authentication state (R5 relies on that call ending the '
+                             'connection): whenever a socket is attached, that function closes it on every path - a connection that stays readable after a <failure/> lets the '
+                             'client continue the old exchange with another user name', floor=1)
+    f = prog.fn('QXmpp::Private::XmppSocket::disconnectFromHost')
+    sock = [fl for fl in prog.record('QXmpp::Private::XmppSocket')['fields'] if 'QSslSocket' in (fl.get('t') or '') or 'QAbstractSocket' in (fl.get('t') or '') or 'QTcpSocket' in (fl.get('t') or '')]
+    if len(sock) != 1:
+        raise AnalysisBroken('C16.R6: the socket member of XmppSocket was not identified')
+    sq = sock[0].get('qname') or 'QXmpp::Private::XmppSocket::' + sock[0]['name']
+
+    def custom(g, nid, st):
+        n = g.nodes[nid]
+        if n['k'] == 'mem' and n.get('f') == sq and (g.parents().get(nid) is None or g.nodes[g.parents()[nid]]['k'] in ('icast', 'cast', 'un')
+                                                  or any(t.get('cond') is not None and g.skip(t['cond']) == nid for t in (b.get('term') or {} for b in g.blocks.values()))):
+            return (True,)
+        return None
+    ev = cfgx.Evaluator(f, {}, custom=custom)
+
+    def transfer(g, nid, st):
+        n = g.nodes[nid]
+        if n['k'] == 'call' and n.get('obj') is not None and g.nodes[g.skip(n['obj'])].get('f') == sq and (g.sym(n) or {}).get('name') in ('disconnectFromHost', 'abort', 'close'):
+            return ('closed',)
+        return None
+    exits, _ = cfgx.explore(f, (), transfer, lambda g, c, st: ev.ev(c, st), max_states=5000)
+    run.instance(rid)
+    bad = [(st, w) for st, w in exits.items() if st != ('closed',)]
+    if bad and _failures_end_exchange(prog):
+        run.ok(rid, f.loc(), 'the socket may stay open for a closing handshake, but every refusing edge of the server discards the SASL exchange before it disconnects')
+    elif bad:
+        run.violation(rid, 'XmppSocket::disconnectFromHost#socket-left-open', f.loc(),
+                      'XmppSocket::disconnectFromHost() returns on some path without closing the attached socket: the server treats the call as the end of a refused connection and '
+                      'leaves the SASL exchange in place, so the peer can go on with it', cfgx.describe_path(f, bad[0][1]))
+    else:
+        run.ok(rid, f.loc(), 'the attached socket is closed on every path (%d)' % len(exits))
+
+
+def _failures_end_exchange(prog):
+    """every server path that disconnects after the SASL exchange was created discards that exchange first (reset / assignment of the mechanism object)"""
+    rec = prog.record('QXmppIncomingClientPrivate')
+    sasl = [fl.get('qname') or 'QXmppIncomingClientPrivate::' + fl['name'] for fl in rec['fields'] if 'QXmppSaslServer' in (fl.get('t') or '')]
+    if not sasl:
+        return False
+
+    def event_of(g, nid):
+        n = g.nodes[nid]
+        if n['k'] == 'call':
+            cn = g.cname(n) or ''
+            if cn.endswith('::disconnectFromHost') and ('XmppSocket' in cn or IC in cn):
+                return 'disc'
+            if n.get('obj') is not None and g.nodes[g.skip(n['obj'])].get('f') in sasl and (g.sym(n) or {}).get('name') in ('reset',):
+                return 'end'
+            if n.get('op') == '=' and n.get('opargs') and g.nodes[g.skip(n['opargs'][0])].get('f') in sasl:
+                return 'end' if g.nodes[g.skip(n['opargs'][1])]['k'] == 'null' else 'begin'
+        return None
+    for g in prog.fns.values():
+        if g.entry is None or not g.file.endswith('QXmppIncomingClient.cpp') or g.is_lambda:
+            continue
+        if not any((g.cname(n) or '').endswith('::disconnectFromHost') for h in prog.closure(g) for _, n in h.calls()):
+            continue
+        if not any(m['k'] == 'mem' and m.get('f') in sasl for h in prog.closure(g) for m in h.nodes):
+            continue            # not an authentication step
+        for q in cfgx.effect_sequences(prog, g, event_of):
+            if 'disc' in q and 'end' not in q[:q.index('disc')]:
+                return False
+    return True
